@@ -473,7 +473,13 @@ func (pw *PgWorld) applyStreamFaults(s *stream, conns []*SimConn) {
 			if pw.mysql {
 				corpus = hostileClientMessagesMy
 			}
-			if s.name == "client->proxy-c" && pw.delivered[s.name] > 1 && s.inject(corpus[int(f.Arg)%len(corpus)]) {
+			if s.name == "db->proxy-d" {
+				corpus = hostileServerMessagesPg
+				if pw.mysql {
+					corpus = hostileServerMessagesMy
+				}
+			}
+			if pw.delivered[s.name] > 1 && s.inject(corpus[int(f.Arg)%len(corpus)]) {
 				w.Res.Fired["injected-message"]++
 				w.Event(0, "FAULT inject "+s.name, fmt.Sprint(int(f.Arg)%len(corpus)))
 			}
